@@ -63,12 +63,12 @@ Section Instr.
     | inr e =>
         inr (e_data e, e_alt e,
              match e_jump e with Some t => t | None => ((pc s + i_len i) mod 2 ^ 32)%N end,
-             gas_after (runlimit s) (spec_cost (i_op i) (dstack s)) (dstack s) (astack s) e,
+             gas_after (runlimit s) (spec_cost child_of (runlimit s) (i_op i) (dstack s)) (dstack s) (astack s) e,
              prog s, expres s)
     end.
 
   Definition enough_gas (i : inst) (s : vmst) : Prop :=
-    gas_needed (spec_cost (i_op i) (dstack s)) (spec_sem i s) <= runlimit s.
+    gas_needed (spec_cost child_of (runlimit s) (i_op i) (dstack s)) (spec_sem i s) <= runlimit s.
 
   Definition refines_at (i : inst) (s : vmst) : Prop :=
     enough_gas i s -> outcome (exec_instr i s) = spec_instr i s.
@@ -215,7 +215,7 @@ Ltac vm_unfold :=
 Ltac spec_unfold :=
   cbv beta iota zeta delta
     [refines_at enough_gas spec_instr spec_sem spec_op spec_cost gas_needed gas_after charge cost
-     c_base c_size c_transient un_num un_pred bin_gen bin_num bin_pred two_items ok jump sbind
+     c_base c_size c_transient c_prepaid un_num un_pred bin_gen bin_num bin_pred two_items ok jump sbind
      in_range small take opt_ctx e_data e_alt e_jump top0 top1
      prog pc nextpc runlimit deferred expres vdata dstack astack i_op i_len i_data].
 
